@@ -485,6 +485,7 @@ type LoopSpec struct {
 	N          int
 	Unroll     int // 0 = use invariants
 	Invariants []*Clause
+	Iterates   []*Clause // relations between the state at the loop head and at the end of one iteration (prev(e) = value at the head)
 	Decreases  *Clause
 }
 
@@ -512,6 +513,15 @@ type FuncContract struct {
 	File      string
 	Line      int
 	CallAsserts []*CallAssert
+	RecvFacts []*RecvFact
+}
+
+// RecvFact: an assumption about every value received from a channel (what the environment may send).
+type RecvFact struct {
+	Chan *SX
+	Var  string
+	Expr *SX
+	Src  string
 }
 
 type CallAssert struct {
@@ -583,7 +593,7 @@ type ContractSet struct {
 
 var clauseKeywords = map[string]bool{
 	"func": true, "requires": true, "ensures": true, "preserves": true, "modifies": true, "loop": true,
-	"invariant": true, "decreases": true, "assert": true, "nopanic": true, "safe": true, "pure": true,
+	"invariant": true, "iterates": true, "decreases": true, "onrecv": true, "assert": true, "nopanic": true, "safe": true, "pure": true,
 	"inline": true, "trusted": true, "models": true, "spec": true, "lemma": true, "ghost": true, "external": true,
 	"guarded": true, "atomic": true, "immutable": true, "confined": true, "purefunc": true, "bounded": true,
 }
@@ -846,6 +856,18 @@ func (cs *ContractSet) ParseFile(path, pkgdir string) error {
 				return err
 			}
 			curLoop.Invariants = append(curLoop.Invariants, c)
+		case "iterates":
+			if curLoop == nil {
+				return fmt.Errorf("%s:%d: iterates outside loop", path, it.line)
+			}
+			c, err := mkClause("iterates", rest, it.line)
+			if err != nil {
+				return err
+			}
+			for _, t := range c.Tags {
+				cur.Tags[t] = true
+			}
+			curLoop.Iterates = append(curLoop.Iterates, c)
 		case "decreases":
 			if curLoop == nil {
 				continue
@@ -887,6 +909,25 @@ func (cs *ContractSet) ParseFile(path, pkgdir string) error {
 			}
 			cur.Models = q[:dot] + "#" + q[dot+1:]
 			cur.Flags["trusted"] = true
+		case "onrecv":
+			// onrecv <channel expr> as <name>: <assumed fact about the received value>
+			if cur == nil {
+				return fmt.Errorf("%s:%d: onrecv outside func", path, it.line)
+			}
+			i := strings.Index(rest, " as ")
+			j := strings.Index(rest, ":")
+			if i < 0 || j < i {
+				return fmt.Errorf("%s:%d: malformed onrecv", path, it.line)
+			}
+			ch, err := ParseSpecExpr(strings.TrimSpace(rest[:i]))
+			if err != nil {
+				return fmt.Errorf("%s:%d: %v", path, it.line, err)
+			}
+			ex, err := ParseSpecExpr(strings.TrimSpace(rest[j+1:]))
+			if err != nil {
+				return fmt.Errorf("%s:%d: %v", path, it.line, err)
+			}
+			cur.RecvFacts = append(cur.RecvFacts, &RecvFact{Chan: ch, Var: strings.TrimSpace(rest[i+4 : j]), Expr: ex, Src: rest})
 		case "nopanic", "safe", "pure", "inline", "trusted":
 			if cur == nil {
 				return fmt.Errorf("%s:%d: flag outside func", path, it.line)
